@@ -5,6 +5,7 @@ package main
 // function+site, so the order of sites does not matter).
 
 import (
+	"regexp"
 	"os"
 	"fmt"
 	"go/constant"
@@ -154,6 +155,12 @@ func ruleGuardTable(p *Prog, r *Report, rule, prop string) {
 	for _, k := range keys {
 		fn := byName[k.fn]
 		if fn == nil {
+			// the audited function was merged into / replaced by a function the audited tree does not
+			// have: if exactly one such function of the same package has sites of this kind, the row is
+			// judged there
+			fn = successorOf(p, k.fn, k.site)
+		}
+		if fn == nil {
 			r.fail(rule, "guards|"+k.fn+"|"+k.site, "", "function "+k.fn+" not found", "the audited protection site no longer exists under this name: re-audit")
 			continue
 		}
@@ -191,6 +198,30 @@ func ruleGuardTable(p *Prog, r *Report, rule, prop string) {
 			fmt.Sprintf("controlling conditions changed.\n   audited: %q\n   now:     %q", w, got))
 	}
 	r.floor(rule, "audited guard rows for "+prop, len(keys), 1)
+}
+
+// successorOf: the only new function (not in the audited tree) of the package of `name`
+// that has guard sites called `site`.
+func successorOf(p *Prog, name, site string) *ssa.Function {
+	m := regexp.MustCompile(`^\(?\*?(\w+)\.`).FindStringSubmatch(name)
+	if m == nil {
+		return nil
+	}
+	var found *ssa.Function
+	for _, f := range allModFuncs(p) {
+		if !isNewHelper(f) || pkgOfFunc(f) != m[1] {
+			continue
+		}
+		for _, gs := range guardSitesOf(p, f) {
+			if gs.Name == site {
+				if found != nil && found != f {
+					return nil
+				}
+				found = f
+			}
+		}
+	}
+	return found
 }
 
 // fnDisplayIndex: display name -> function; a second closure bound to the same
